@@ -134,4 +134,40 @@ theorem simRows_total (rates : List Rat) (hv : ValidRates rates) (n : Nat) : ∀
     have : countAssert arr n = true := by simp [countAssert, hsum, hl]
     rw [this, hrest]; rfl
 
+/-- **default random path**: the simulated catalogs of `testBinaryStream` — one per simulation, each 0/1-valued with
+    exactly `N` active cells, of the forecast's length, active only where the rate is positive (stream ≥ 0). -/
+theorem stream_arrays_spec (rq : List Rat) (N : Nat) : ∀ (k : Nat) (stream : List Rat) (arrs : List (List Nat)),
+    (∀ r ∈ stream, 0 ≤ r) → testBinaryStream (weightsMasked rq) N k stream = some arrs →
+    arrs.length = k ∧ ∀ arr ∈ arrs, IsBinary arr ∧ arr.sum = N ∧ arr.length = rq.length ∧
+      ∀ j, j < rq.length → 0 < arr.getD j 0 → 0 < rq.getD j 0
+  | 0, stream, arrs, _, h => by simp [testBinaryStream] at h; subst h; simp
+  | k + 1, stream, arrs, hd, h => by
+    simp only [testBinaryStream] at h
+    split at h
+    · rename_i arr rest hsim
+      cases hr : testBinaryStream (weightsMasked rq) N k rest with
+      | none => rw [hr] at h; cases h
+      | some tl =>
+        rw [hr] at h
+        simp only [Option.map_some, Option.some.injEq] at h
+        subst h
+        obtain ⟨used, hu⟩ := binary_sim_consumes_prefix _ _ _ _ _ hsim
+        have hd' : ∀ r ∈ rest, 0 ≤ r := fun r hr' => hd r (by rw [hu]; exact List.mem_append_right _ hr')
+        obtain ⟨hl, hall⟩ := stream_arrays_spec rq N k rest tl hd' hr
+        obtain ⟨hb, _, hsum, hlen, hpos⟩ := binary_sim_distinct_count rq N stream arr rest hd hsim
+        refine ⟨by simp [hl], ?_⟩
+        intro a ha
+        rcases List.mem_cons.mp ha with rfl | ha'
+        · refine ⟨hb, hsum, hlen, ?_⟩
+          intro j hj h0
+          apply hpos j hj
+          have hm : a.getD j 0 ∈ a := by
+            have hj' : j < a.length := by rw [hlen]; exact hj
+            simp [List.getD_eq_getElem?_getD, List.getElem?_eq_getElem hj']
+          rcases hb _ hm with h' | h'
+          · omega
+          · exact h'
+        · exact hall a ha'
+    · cases h
+
 end BinaryBrier
